@@ -333,6 +333,37 @@ def judge_scenario(sc, o):
     return None
 
 
+_NH = ("from dataclasses import dataclass\nimport attrs\nfrom inline_snapshot import snapshot\n\n\n@dataclass\nclass P:\n    x: int\n    y: int = 0\n\n\n@dataclass\nclass Scale:\n    factor: int\n\n"
+       "    def __call__(self, x, y=1):\n        return P(x=x * self.factor, y=y * self.factor)\n\n\n@attrs.define\nclass AScale:\n    factor: int\n\n    def __call__(self, x):\n        return P(x=x * self.factor)\n\n\n"
+       "def make(x):\n    return P(x=x + 1)\n\n\ndouble, triple = Scale(2), AScale(3)\n\n\n")
+NEVER_CORPUS = [_NH + f"S = snapshot({arg})\n\n\ndef test_a():\n    pass\n" for arg in
+                ("double(x=1, y=2)", "triple(x=1+0)", "make(x=1)", "[double(x=0+1), P(x=0+1)]", "{'k': make(x=2), 'j': P(x=1_0, y=0)}", "P.__call__(x=1)" if False else "P(x=1_0)",
+                 "{'small': 1_0, 'small': 1_2, 'medium': 1_00, 'large': 1_000}", "{1_0: 'a', 1_0: 'b', 2_0: 'c'}")]
+
+
+def run_never_corpus(src):
+    from .. import driver
+    import ast as _ast
+    r = driver.run_inproc({"test_a.py": src}, ("update",), block_black=True)
+    after = r["files"]["test_a.py"].decode()
+    out = {"session_exc": r["session_exc"]}
+    try:
+        def arg_and_value(text):
+            tree = _ast.parse(text)
+            call = [n for n in _ast.walk(tree) if isinstance(n, _ast.Call) and isinstance(n.func, _ast.Name) and n.func.id == "snapshot"][0]
+            seg = _ast.get_source_segment(text, call.args[0])
+            ns = {}
+            exec(compile(_ast.Module(body=[n for n in tree.body if not (isinstance(n, _ast.Assign) and getattr(n.targets[0], "id", "") == "S")], type_ignores=[]), "<m>", "exec"), ns)
+            return seg, repr(eval(seg, ns))
+        out["arg_before"], out["before"] = arg_and_value(src)
+        out["arg_after"], out["after"] = arg_and_value(after)
+        if r["session_exc"]:
+            out["error"] = r["session_exc"]
+    except Exception as e:  # noqa
+        out.update(error=f"{type(e).__name__}: {e}", before=None, after="?")
+    return out
+
+
 # one call site per category (and a mixed one) for the twin-module oracle
 TWIN_SRC = '''from inline_snapshot import snapshot
 
@@ -420,6 +451,13 @@ def run(ctx: Ctx):
     na.check_part(ctx, 300 if not ctx.thorough else 4000, "C05", unm_choices=(0, 0, 0, 0.2))
     # snapshots that are evaluated but never compared, nested values: what update does vs Model/Undecided.v
     na.check_never(ctx, 200 if not ctx.thorough else 2500, "C05")
+    # never-compared snapshots whose argument is no display / constructor call: update is value preserving (the value of the argument before = after)
+    for src, o in zip(NEVER_CORPUS, pmap(run_never_corpus, NEVER_CORPUS, chunksize=1)):
+        ctx.count(("never-corpus", src), True)
+        if o.get("error") or o["before"] != o["after"]:
+            ctx.report(f"C05 oracle: update changed the VALUE of a never-compared snapshot: {o.get('arg_before')} -> {o.get('arg_after')} ({o.get('before')} -> {o.get('after')}) {o.get('error') or ''}",
+                       {"kind": "never-corpus", "source": src})
+    ctx.coverage["oracle"]["never_compared_corpus"] = len(NEVER_CORPUS)
     # D: the category of a call site is decided per file: the same module under three names in one session ends up as it does alone, for every category
     from .. import twins
     twins.check(ctx, "C05", [TWIN_SRC], flag_sets=(("create",), ("fix",), ("trim",), ("update",), ("create", "fix", "trim", "update")))
@@ -433,6 +471,10 @@ def classify(case, obs):
 
 
 def replay(ctx: Ctx, data):
+    if isinstance(data.get("case"), dict) and data["case"].get("kind") == "never-corpus":
+        o = run_never_corpus(data["case"]["source"])
+        print(o)
+        return not o.get("error") and o["before"] == o["after"]
     if isinstance(data.get("case"), dict) and data["case"].get("kind") == "twins":
         from .. import twins
         return twins.replay(data["case"])
